@@ -247,6 +247,8 @@ class Judge:
         allow = cert["allowance"] + self.drift_allow(pr, res, w, b)
         bound = tol * (1 + REL) + allow
         res["cert"] = cert["value"]
+        res["cert_full"] = dict(value=float(cert["value"]), coef_part=float(cert["coef_part"]),
+                                intercept_part=float(cert["intercept_part"]), allow=float(allow))
         if cert["value"] <= bound:
             return out
         props = []
@@ -363,9 +365,31 @@ class Judge:
                                                 diff=float(diff)),
                                     feat=self.feat(res, dict(diff=float(diff)))))
         # (c) on a tolerance stop, stop_crit is the violation of the returned point
-        if claimed and "cert" in res and crit in ("subdiff", "fixpoint") and \
-                s.solver_name in B.C01_SOLVERS:
-            pass  # covered by C01 (cert <= tol); equality of the two numbers is checked below
+        # (cert <= tol is C01's matter; here the *number* returned is compared with the violation
+        # recomputed from scratch.  Only the subdifferential criterion involves no step-size
+        # constants, so only there are the two numbers the same quantity; a factor 2 plus the
+        # rounding / drift allowance separates "understated" from rounding.)
+        cf = res.get("cert_full")
+        if claimed and cf is not None and crit == "subdiff" and s.solver_name in B.C01_SOLVERS \
+                and np.isfinite(res["stop_crit"]):
+            sc = max(float(res["stop_crit"]), 0.0)
+            # (the solver's number is computed from its in-place model fit, which a line search
+            # with a huge trial step or a column of scale 1e6 leaves off X w by far more than
+            # eps - observed 4e-9, i.e. 2e-5 on the gradient: a discrepancy below 5 % of the
+            # tolerance the number is compared with is not held against it)
+            lim = 2.0 * sc * (1 + REL) + cf["allow"] + 0.05 * tol
+            if cf["value"] > lim:
+                only_intercept = cf["coef_part"] <= lim < cf["intercept_part"]
+                out.append(dict(prop=["C17"], oracle="stop_value",
+                                sig=_family_sig(s) + ("stop_value_understates_violation",
+                                                      "intercept_only" if only_intercept else "coef"),
+                                detail=dict(stop_crit=sc, recomputed=cf["value"], tol=tol,
+                                            coef_part=cf["coef_part"],
+                                            intercept_part=cf["intercept_part"], allowance=cf["allow"]),
+                                feat=self.feat(res, dict(
+                                    criterion=crit, only_intercept=bool(only_intercept),
+                                    intercept_over_stop=(cf["intercept_part"] / sc) if sc > 0 else float("inf"),
+                                    n_outer=(res.get("seam") or {}).get("outer")))))
         return out
 
     # ------------------------------------------------------------------ chains (C03)
